@@ -134,8 +134,9 @@ func TestC15Crash(t *testing.T) {
 			switch {
 			case st.Comp == "wc" && st.Method == "Delete" && st.After && st.Err == nil:
 				wcDeleted[st.Addrs[0]] = true
-			case st.Comp == "blob":
+			case st.Comp == "blob" && st.Method == "Delete":
 				// deleteObjs reached its blob step: metaBase.Delete is done
+				// (Put/PutBatch steps belong to a concurrently running flusher)
 				clear(wcDeleted)
 			}
 		}
